@@ -110,6 +110,10 @@ class Attract(Mode):
         """
         if ev_result is False:
             self.debug_log("Game start was denied")
+        elif "game" in self.machine.modes and self.machine.modes["game"].active:
+            # attract starts on game_ended while the game mode of that game is still stopping. A game_start now
+            # would be ignored by the (still active) game mode but would stop attract: nothing would be running
+            self.debug_log("Game mode is still stopping. Ignoring start request")
         else:  # else because we want to start on True *or* None
             self.debug_log("Let's start a game!!")
             self.machine.events.post('game_start',
